@@ -541,12 +541,25 @@ class FuncFlow:
             if isinstance(c, ast.Call) and isinstance(c.func, ast.Attribute):
                 m = c.func.attr
                 mut = m in MUTATOR_METHODS
+                written = None
                 if not mut and self.is_mutating_call is not None:
-                    mut = bool(self.is_mutating_call(c, self))
+                    r = self.is_mutating_call(c, self)
+                    mut = bool(r)
+                    if isinstance(r, (set, frozenset)):
+                        written = r         # the receiver attributes the callee (re)binds or writes
                 if mut:
                     key = pathkey(c.func.value)
                     if key is not None:
-                        self._kill_below(st, key)
+                        if m in ('append', 'extend', 'add', 'update', 'setdefault'):
+                            pass            # growing a container keeps the elements already bound
+                        elif written is None:
+                            self._kill_below(st, key)
+                        else:
+                            for attr in written:
+                                if attr.endswith('*'):
+                                    self._kill_below(st, f"{key}.{attr[:-1]}")
+                                else:
+                                    self._kill_below(st, f"{key}.{attr}", include_self=True)
                         self._bump(st, key, below=True)
 
     def _add_facts(self, st: State, test_raw, test_res, truth, out: list):
